@@ -37,7 +37,7 @@ ASSUMPTIONS = [
 
 
 def budget(tier):
-    return 800 if tier == "quick" else 20000
+    return 600 if tier == "quick" else 20000
 
 
 NAMES = ["vmware.extra", "a", "x.y", "vmware.flags", "build", "ключ", "n1", "n2", "blob", "float.val"]
@@ -74,6 +74,7 @@ def keystore_spec(draw):
             "data2": draw(st.binary(min_size=1, max_size=32)).hex(), "extra": extra, "extra_at": draw(st.integers(0, 4)),
             "crlf": draw(st.booleans()), "comments": draw(st.booleans()), "sep": draw(st.sampled_from([" = ", "=", " =  "])),
             "no_final_newline": draw(st.sampled_from([False, False, True])),
+            "field_order": draw(st.sampled_from([None, None, [3, 0, 1, 2], [0, 2, 1, 3], [2, 1, 0, 3], [3, 2, 1, 0]])),
             "quote_style": draw(st.sampled_from(["eq-lower", "eq-lower", "eq-upper", "all-lower", "all-upper", "none"]))}
 
 
@@ -142,6 +143,27 @@ def decrypt(data: bytes, key: bytes, aad):
     return lib(run)
 
 
+def decrypt_variants(data: bytes, key: bytes, aad, payload, out):
+    """The same envelope through other caller-side forms: associated data given positionally, a file object that only has
+    read / seek / tell / close, and one whose seek() returns nothing."""
+    from dissect.hypervisor.util.envelope import Envelope
+    from hv.core import MinimalHandle
+
+    forms = [("positional-aad", lambda: Envelope(core_track(data)).decrypt(key, aad)),
+             ("minimal-handle", lambda: Envelope(MinimalHandle(data)).decrypt(key, aad=aad)),
+             ("seek-returns-none", lambda: Envelope(MinimalHandle(data, seek_returns_none=True)).decrypt(key, aad=aad))]
+    for name, fn in forms:
+        got, err = lib(fn)
+        if err or got != payload:
+            out.fail(f"mismatch|decrypt-{name}", f"decrypt ({name}) " + (f"raised {err.describe()}" if err else "returned other bytes"))
+            return
+    # and the rejection side with positional associated data
+    if aad:
+        got, err = lib(lambda: Envelope(core_track(data)).decrypt(key, (aad or b"") + b"\x01"))
+        if err is None:
+            out.fail("accepted|wrong-aad-positional", "decrypt(key, <wrong associated data>) with positional arguments succeeded")
+
+
 def check(spec) -> Outcome:
     from dissect.hypervisor.util.envelope import KeyStore
 
@@ -188,6 +210,10 @@ def check(spec) -> Outcome:
         out.fail("mismatch|decrypt", f"decrypted {len(got)} bytes != payload of {len(payload)} bytes")
         return out
     # wrong key
+    if spec["payload_len"] <= 1 << 20:
+        decrypt_variants(data, key, aad, payload, out)
+        if out.failures:
+            return out
     wrong = bytes([key[0] ^ 1]) + key[1:]
     got, err = decrypt(data, wrong, aad)
     if err is None:
